@@ -248,7 +248,11 @@ func genG(ch *vs.Choices, b gBias) *gProg {
 						c.ForKind = []string{"", "", "var", "split", "sources"}[ch.Draw(5)]
 					}
 				}
-				c.Glued = ch.Bool(1, 3) && c.Fail == 0
+				if b.PFail >= 25 {
+					c.Glued = ch.Bool(2, 3) && c.Fail == 0 // failure-rich programs: most commands outlive a cancellation
+				} else {
+					c.Glued = ch.Bool(1, 3) && c.Fail == 0
+				}
 			}
 			if ch.Pct(b.PDefer) {
 				c.Defer = true
@@ -324,7 +328,7 @@ func genG(ch *vs.Choices, b gBias) *gProg {
 					dt.Cmds = append([]gCmd{{Kind: gProbe, Defer: true}}, dt.Cmds...)
 				}
 			}
-			if shared && ch.Bool(1, 2) {
+			if (shared || len(t.Deps) >= 2) && ch.Bool(1, 2) {
 				t.Deps = append(t.Deps, gRef{Target: n})
 				used = true
 			}
